@@ -120,10 +120,12 @@ def run_prop(chk, replay, prop):
     chosen = fragile + util.select([s for s in scenarios if id(s) not in ids], cap - len(fragile), chk.rng)
     chk.extra["fragile_states"] = {"by_rule_in_model": counts, "replayed": len(fragile)}
     chk.exhaustive = len(chosen) == len(scenarios)
-    styles = [{}, {"offset_text": "plus"}, {"offset_text": "zero"}, {"fod_blanks": True}]
+    styles = [{}, {"offset_text": "plus"}, {"offset_text": "zero"}, {"fod_blanks": True}, {"ishift": True}]
     for i, sc in enumerate(chosen):
         ndims = 2 if i % 4 == 1 else 3
         style = styles[i % len(styles)] if prop == "C20" else ({"payload": "wild"} if prop == "C03" and i % 2 else {})
+        if prop == "C04" and i % 5 == 4 and not sc["opts"]["coords"]:
+            style = {"ishift": True}
         cfgseed = chk.rng.randrange(1 << 30)
         v, obs = judge(chk, prop, sc, cfgseed, ndims, style)
         sigs = T.sig_of(sc, ndims, style)
